@@ -878,7 +878,7 @@ class Operations:
         nodes = tuple(nodes)
         manynodes = []
         for node in nodes:
-            mult = knotvector.mult(node)
+            mult = sum(knot == node for knot in knotvector)  # exact count
             manynodes += [node] * (degree + 1 - mult)
         bigvector = knotvector + manynodes
         bigmatrix = Operations.knot_insert(knotvector, manynodes)
@@ -1071,7 +1071,7 @@ class Operations:
 
         insertednodes = []
         for node in nodes:
-            mult = knotvector.mult(node)
+            mult = sum(knot == node for knot in knotvector)  # exact count
             insertednodes += (degree + 1 - mult) * [node]
         bigvector = knotvector + insertednodes
         incbigvector = bigvector + times * nodes
